@@ -256,9 +256,10 @@ fn copy_snapshot(n: &Nucleo<Tracked>, cols: u32, refm: &mut Matcher) -> SnapCopy
 }
 
 fn fill(spec_text: &'static str, cols: &mut [Utf32String]) {
-    // column 0 = the text, further columns = fixed text (keeps multi-column scoring non-trivial)
+    // column 0 = the text
     for (k, c) in cols.iter_mut().enumerate() {
-        *c = if k == 0 { Utf32String::from(spec_text) } else { Utf32String::from("ab") };
+        // further columns hold the text reversed (so that the columns of different items differ)
+        *c = if k == 0 { Utf32String::from(spec_text) } else { Utf32String::from(spec_text.chars().rev().collect::<String>().as_str()) };
     }
 }
 
